@@ -5,6 +5,8 @@
 //@harness flp_query_root_guard_c3 | complete | same, gadget called 3 times (wire polynomial length 4)
 //@harness flp_query_root_guard_c4 | complete | same, gadget called 4 times (wire polynomial length 8)
 //@harness flp_query_root_guard_c8 | complete | same, gadget called 8 times (wire polynomial length 16)
+//@harness flp_query_root_guard_split_c1 | complete | Flp::query on a circuit with TWO outputs (query randomness = [2 output-compression elements | 1 per gadget]), gadget called 1 time, any randomness: a root of unity in the GADGET slot => Err before any gadget polynomial is evaluated, whatever the compression slots hold
+//@harness flp_query_root_guard_split_c2 | complete | same, gadget called 2 times (wire polynomial length 4)
 //@harness flp_query_len_guards | complete | Flp::query: wrong input / proof / query-randomness / joint-randomness length => Err(Query) before any indexing (lengths symbolic 0..3 each)
 //@harness flp_prove_len_guards | complete | Flp::prove (real provided method): wrong input / prover-randomness / joint-randomness length => Err(Prove) before the circuit's gadgets are even instantiated (lengths symbolic 0..3 each)
 //@harness flp_decide_guards | complete | Flp::decide (real provided method): wrong verifier length => Err; verifier[0] != 0 => Ok(false); gadget check mismatch => Ok(false); else Ok(true); all indices in range
@@ -37,7 +39,7 @@ mod verif_c05_flp {
         fn as_any(&mut self) -> &mut dyn Any { self }
     }
     #[derive(Clone, Debug, PartialEq, Eq)]
-    struct GType<const CALLS: usize> { jr: usize }
+    struct GType<const CALLS: usize> { jr: usize, eo: usize }
     impl<const CALLS: usize> Flp for GType<CALLS> {
         type Field = Field64;
         fn gadget(&self) -> Vec<Box<dyn Gadget<Field64>>> {
@@ -62,20 +64,20 @@ mod verif_c05_flp {
             vec![Box::new(SymGadget::<CALLS>)]
         }
         fn num_gadgets(&self) -> usize { 1 }
-        fn valid(&self, _g: &mut Vec<Box<dyn Gadget<Field64>>>, _i: &[Field64], _j: &[Field64], _n: usize) -> Result<Vec<Field64>, FlpError> { Ok(vec![Field64::zero()]) }
+        fn valid(&self, _g: &mut Vec<Box<dyn Gadget<Field64>>>, _i: &[Field64], _j: &[Field64], _n: usize) -> Result<Vec<Field64>, FlpError> { Ok(vec![Field64::zero(); self.eo]) }
         fn input_len(&self) -> usize { 1 }
         // declared lengths are the ones the Flp contract prescribes (C05 length exactness, unit flp_lens)
         fn proof_len(&self) -> usize { 1 + gadget_poly_len(2, wire_poly_len(CALLS)) }
         fn verifier_len(&self) -> usize { 1 + 1 + 1 }
         fn joint_rand_len(&self) -> usize { self.jr }
-        fn eval_output_len(&self) -> usize { 1 }
+        fn eval_output_len(&self) -> usize { self.eo }
         fn prove_rand_len(&self) -> usize { 1 }
     }
 
     fn spec_wire_poly_len(calls: usize) -> usize { let mut p = 1; while p < 1 + calls { p *= 2; } p }
 
     fn root_guard<const CALLS: usize, const PL: usize>() {
-        let typ = GType::<CALLS> { jr: 0 };
+        let typ = GType::<CALLS> { jr: 0, eo: 1 };
         assert!(PL == 1 + 2 * (spec_wire_poly_len(CALLS) - 1) + 1);
         let r = any64();
         // specification side: r^n with n the wire-polynomial length, computed with the same (memoised) mul contract
@@ -103,6 +105,32 @@ mod verif_c05_flp {
     rg!(flp_query_root_guard_c4, 4, 16);
     rg!(flp_query_root_guard_c8, 8, 32);
 
+
+    // a circuit with TWO outputs: the query randomness is [2 elements compressing the outputs | 1 element per gadget]; the guard
+    // must inspect the GADGET slot (the point where wire and gadget polynomials are evaluated), not the compression slots
+    fn root_guard_split<const CALLS: usize, const PL: usize>() {
+        let typ = GType::<CALLS> { jr: 0, eo: 2 };
+        assert!(PL == 1 + 2 * (spec_wire_poly_len(CALLS) - 1) + 1);
+        let (v0, v1, r) = (any64(), any64(), any64());
+        let n = spec_wire_poly_len(CALLS) as u64;
+        let is_root = r.pow(n) == Field64::one();
+        unsafe { IS_ROOT = is_root; STOP_AFTER_GUARD = true; GADGET_CALLS = 0; }
+        let input = [Field64::zero(); 1];
+        let proof = [Field64::zero(); PL];
+        let res = typ.query(&input, &proof, &[v0, v1, r], &[], 1);
+        if is_root { assert!(matches!(res, Err(FlpError::Query(_)))); }
+        kani::cover!(is_root && res.is_err());
+        forget(res);
+    }
+    macro_rules! rgs { ($name:ident, $calls:expr, $pl:expr) => {
+        #[kani::proof]
+        #[kani::unwind(18)]
+        #[kani::stub(<crate::fp::FP64 as crate::fp::ops::FieldOps<u64>>::mul, crate::verif_common::mul64_stub)]
+        #[kani::stub(alloc::fmt::format, crate::verif_common::format_stub)]
+        fn $name() { root_guard_split::<$calls, $pl>(); }
+    } }
+    rgs!(flp_query_root_guard_split_c1, 1, 4);
+    rgs!(flp_query_root_guard_split_c2, 2, 8);
     #[kani::proof]
     #[kani::unwind(6)]
     #[kani::stub(<crate::fp::FP64 as crate::fp::ops::FieldOps<u64>>::mul, crate::verif_common::mul64_stub)]
@@ -110,7 +138,7 @@ mod verif_c05_flp {
     fn flp_query_len_guards() {
         let jr: usize = kani::any();
         kani::assume(jr <= 1);
-        let typ = GType::<1> { jr };
+        let typ = GType::<1> { jr, eo: 1 };
         unsafe { IS_ROOT = false; STOP_BEFORE_GUARD = true; GADGET_CALLS = 0; }
         let buf = [Field64::zero(); 5];
         let (li, lp, lq, lj): (usize, usize, usize, usize) = (kani::any(), kani::any(), kani::any(), kani::any());
@@ -131,7 +159,7 @@ mod verif_c05_flp {
     fn flp_prove_len_guards() {
         let jr: usize = kani::any();
         kani::assume(jr <= 1);
-        let typ = GType::<1> { jr };
+        let typ = GType::<1> { jr, eo: 1 };
         unsafe { STOP_AT_FIRST_GADGET = true; STOP_AFTER_GUARD = false; STOP_BEFORE_GUARD = false; GADGET_CALLS = 0; }
         let buf = [Field64::zero(); 4];
         let (li, lp, lj): (usize, usize, usize) = (kani::any(), kani::any(), kani::any());
@@ -148,7 +176,7 @@ mod verif_c05_flp {
     #[kani::unwind(6)]
     #[kani::stub(alloc::fmt::format, crate::verif_common::format_stub)]
     fn flp_decide_guards() {
-        let typ = GType::<1> { jr: 0 };
+        let typ = GType::<1> { jr: 0, eo: 1 };
         unsafe { STOP_AFTER_GUARD = false; EVAL_RESULT = kani::any(); kani::assume(EVAL_RESULT < <crate::fp::FP64 as crate::fp::FieldParameters<u64>>::PRIME); }
         let v = [any64(), any64(), any64(), any64()];
         let l: usize = kani::any();
